@@ -380,6 +380,16 @@ func sharedOp(s *jsonapi.Schema, op string, p int) {
 		if string(first) != kept || strings.Count(kept, "own-"+id) != 3 || !json.Valid(first) {
 			panic("the payload of a collection changed after it was returned, or holds another request's members")
 		}
+		// ... and the same with the collection marshaler called on its own (a handler that writes the
+		// members itself): the bytes it returned stay what they were while the next collection is marshaled
+		sel := map[string][]string{"t1": {"a"}}
+		direct := jsonapi.MarshalCollection(col, "/p", sel, nil)
+		keptD := string(direct)
+		second := jsonapi.MarshalCollection(other, "/p", sel, nil)
+		if string(direct) != keptD || strings.Count(keptD, "own-"+id) != 3 || !json.Valid(direct) ||
+			strings.Count(string(second), "somebody else's") != 2 || !json.Valid(second) {
+			panic("the bytes MarshalCollection returned changed when it was called again, or hold another collection's members")
+		}
 	case "GetType":
 		if s.GetType("t2").Name != "t2" || s.GetType("zz").Name != "" {
 			panic("GetType")
